@@ -484,6 +484,12 @@ func genDumpFields(t *rapid.T, depth int) []wiregen.WField {
 		case 4:
 			f.WT = refwire.WTLen
 			f.Payload = []byte(rapid.StringMatching(`[ -~]{0,12}`).Draw(t, "str"))
+			if rapid.IntRange(0, 7).Draw(t, "long") == 0 {
+				// a long payload: lengths around the buffer sizes a renderer may use (64, 128, 256, 512, 1024, 4096)
+				l := rapid.SampledFrom([]int{63, 64, 65, 127, 128, 129, 255, 256, 257, 511, 512, 513, 768, 1024, 1025, 4096, 4097}).Draw(t, "longlen")
+				b := rapid.Byte().Draw(t, "longfill")
+				f.Payload = bytes.Repeat([]byte{b, b + 1, 'a'}, l/3+1)[:l]
+			}
 		default:
 			f.WT = refwire.WTLen
 			if depth > 0 {
@@ -571,7 +577,7 @@ func sanitizeStrings(c *DumpCase) {
 }
 
 const ruleC20 = "(hex) random byte strings rendered with random digit case, spaces/tabs/CR anywhere incl. between the two digits of a byte, line breaks at byte boundaries, ';' comments containing arbitrary text incl. ';' and hex digits, comment-only lines, 1 in 10 with one physical line of 1000 .. 200001 bytes (sizes around 4 KiB and 64 KiB; hex digits, a long comment, a whitespace run or a comment-only line) between two ordinary parts; 1 in 4 corrupted with one non-hex non-space character outside comments (must be rejected); oracle: ParseAnnotatedHex(render(b)) == b. " +
-	"(protodump) generated wire sequences (nesting depth <= 3, all four wire types, numbers up to 2^29-1), 1 in 4 mutated, x random disjoint -expand/-strings path sets over present and absent paths; dumpProto (working-tree source compiled into the harness) and the built binary (-file, stdin pipe, stdin file) are read by a tolerant reader into (depth, number, wire type, value) entries == refwire walk recursing into exactly the expand paths; malformed => error, never a panic. " +
+	"(protodump) generated wire sequences (nesting depth <= 3, all four wire types, numbers up to 2^29-1, 1 in 8 length-delimited payloads 63..4097 bytes long), 1 in 4 mutated, x random disjoint -expand/-strings path sets over present and absent paths; dumpProto (working-tree source compiled into the harness) and the built binary (-file, stdin pipe, stdin file) are read by a tolerant reader into (depth, number, wire type, value) entries == refwire walk recursing into exactly the expand paths; malformed => error, never a panic. " +
 	"non-trivial = hex text with >= 1 comment and >= 1 line break; dump input with >= 1 length-delimited field and >= 1 path; distinct by text / (input, paths)"
 
 func TestC20(t *testing.T) {
